@@ -260,16 +260,38 @@ func genC18(seed int64, tier string, out *Writer) {
 			out.Put(J{"k": "seq", "entry": name, "input": B(in)})
 		}
 	}
+	out.Put(J{"k": "recheck"})
 	out.Put(J{"k": "conc", "goroutines": 16, "calls": map[string]int{"quick": 150, "thorough": 2000}[tier], "seed": seed})
 }
 
+type seenCall struct {
+	entry  string
+	input  []byte
+	kind   string
+	digest string
+}
+
+var seenCalls []seenCall
+
 func execC18(vec J, out *Writer) {
 	switch vec["k"].(string) {
+	case "recheck":
+		// history independence: every call made so far is made again, in reverse order, after all the other
+		// inputs went through the library; the outcome must be the one observed the first time
+		for i := len(seenCalls) - 1; i >= 0; i-- {
+			c := seenCalls[i]
+			k2, d2, n2 := guarded(entries[c.entry], c.input, 10)
+			lean := J{"k": "seq", "entry": c.entry, "input": BB(c.input), "recheck": true}
+			out.Put(J{"ev": "call", "in": lean, "len": len(c.input), "kind": c.kind, "digest": c.digest, "nil_on_error": n2, "kind2": k2, "digest2": d2})
+		}
 	case "seq":
 		name := vec["entry"].(string)
 		in := []byte(S(vec["input"]))
 		k1, d1, n1 := guarded(entries[name], in, 10)
 		k2, d2, _ := guarded(entries[name], in, 10)
+		if len(in) <= 4096 {
+			seenCalls = append(seenCalls, seenCall{name, in, k1, d1})
+		}
 		lean := J{"k": "seq", "entry": name}
 		if len(in) <= 256 {
 			lean["input"] = vec["input"]
